@@ -168,6 +168,14 @@ func runC02(ctx *core.Ctx, idx int) *core.Result {
 						base = g.Expr(2, nil)
 					}
 					n := strings.Count(minus, "«"+m.Name+"»")
+					// code in the file that uses a name spelled like a metavariable of the patch is still ordinary code:
+					// occurrences that differ in exactly that name are different code
+					hot, hotForm := "", ""
+					if !ident && n >= 2 && r.Intn(4) == 0 {
+						hot = c.Meta[r.Intn(len(c.Meta))].Name
+						hotForm = []string{"arr[%s]", "%s.fld", "conv(%s, 1)", "%s + 1", "&%s", "%s"}[r.Intn(6)]
+						base = fmt.Sprintf(hotForm, hot)
+					}
 					fillers := []string{base}
 					for k := 1; k < n; k++ {
 						rel := 0
@@ -175,6 +183,12 @@ func runC02(ctx *core.Ctx, idx int) *core.Result {
 							rel = 1 + r.Intn(5)
 						}
 						fv, name := fillerVariant(g, base, rel, ident)
+						if hot != "" {
+							fv, name = base, "equal-with-metavariable-named-identifier"
+							if r.Intn(2) == 0 {
+								fv, name = fmt.Sprintf(hotForm, "q"+fmt.Sprint(r.Intn(90))), "differs-at-metavariable-named-identifier"
+							}
+						}
 						fillers = append(fillers, fv)
 						rels = append(rels, name)
 					}
